@@ -14,7 +14,7 @@ import (
 // many points per case.
 func init() {
 	Props["C12"] = &Prop{
-		Imports:    "From Coq Require Import Uint63.\nFrom Verif Require Import Model.Access Corr.C12.",
+		Imports:    "From Coq Require Import Uint63.\nFrom Verif Require Import Model.Access Model.Auth Corr.C12.",
 		Gen:        genC12,
 		Corpus:     corpusC12,
 		NonTrivial: func(c *Case) bool { return c.Tags["granted_partial"] > 0 && c.Tags["granted_all"] > 0 },
@@ -30,33 +30,81 @@ const c12ClassPoints = 5 * 512 * 2 * 2 * 64
 type c12Point struct {
 	mode       uint32
 	fuid, fgid uint32
+	// the EFFECTIVE identity (what the property is about): after the export's squashing
 	euid, egid uint32
 	aux        []uint32 // nil with authNone
 	authNone   bool     // AUTH_NONE: no AuthSys, effective ids 65534/65534
 	access     uint32
 	ro         bool
+	// how the server gets there: the export's squash mode and the RAW AUTH_SYS credential sent.
+	// squash 0 = none (raw = effective), 1 = root, 2 = all.  Filled by finish().
+	squash         int
+	ruid, rgid     uint32
+	raux           []uint32
+	rawSet         bool
+	ctxUID, ctxGID uint32 // AuthContext.EffectiveUID/GID found after the call
+	trap           string // label when the object's owner/group was chosen equal to a RAW id that squashing removed
 }
 
-var c12rigs [2]*rig
+var c12SquashNames = []string{"none", "root", "all"}
+var c12SquashCoq = []string{"SNone", "SRoot", "SAll"}
 
-func c12rig(ro bool) *rig {
-	i := 0
+var c12rigs [6]*rig
+
+func c12rig(ro bool, squash int) *rig {
+	i := squash * 2
 	if ro {
-		i = 1
+		i++
 	}
 	if c12rigs[i] == nil {
-		c12rigs[i] = newRig(absnfs.ExportOptions{ReadOnly: ro, Squash: "none"})
+		c12rigs[i] = newRig(absnfs.ExportOptions{ReadOnly: ro, Squash: c12SquashNames[squash]})
 	}
 	return c12rigs[i]
 }
 
+// goSquash: the driver's own statement of the squash table (used to plan cases and to assert what
+// HandleCall stored; the Coq oracle recomputes the effective identity with Model/Auth.v squash_table).
+func goSquash(squash int, uid, gid uint32, aux []uint32) (uint32, uint32, []uint32) {
+	out := make([]uint32, len(aux))
+	copy(out, aux)
+	switch squash {
+	case 1:
+		for i, g := range out {
+			if g == 0 {
+				out[i] = 65534
+			}
+		}
+		if uid == 0 {
+			return 65534, 65534, out
+		}
+		if gid == 0 {
+			gid = 65534
+		}
+		return uid, gid, out
+	case 2:
+		for i := range out {
+			out[i] = 65534
+		}
+		return 65534, 65534, out
+	}
+	return uid, gid, out
+}
+
+// finish fills the raw credential for points given by their effective identity (squash none).
+func (p *c12Point) finish() {
+	if !p.rawSet {
+		p.squash, p.ruid, p.rgid, p.raux, p.rawSet = 0, p.euid, p.egid, p.aux, true
+	}
+}
+
 func (p *c12Point) run() (uint32, error) {
-	r := c12rig(p.ro)
+	p.finish()
+	r := c12rig(p.ro, p.squash)
 	r.fs.mode = os.FileMode(p.mode)
 	if !r.nfs.VerifAuthSetOwner(r.fh, p.fuid, p.fgid) {
 		return 0, fmt.Errorf("handle lost")
 	}
-	cred := absnfs.RPCCredential{Flavor: absnfs.AUTH_SYS, Body: authSysBody(7, "host", p.euid, p.egid, p.aux)}
+	cred := absnfs.RPCCredential{Flavor: absnfs.AUTH_SYS, Body: authSysBody(7, "host", p.ruid, p.rgid, p.raux)}
 	if p.authNone {
 		cred = absnfs.RPCCredential{Flavor: absnfs.AUTH_NONE}
 	}
@@ -64,9 +112,19 @@ func (p *c12Point) run() (uint32, error) {
 	if res.nilRep || res.reply.Status != absnfs.MSG_ACCEPTED || res.reply.AcceptStatus != absnfs.SUCCESS {
 		return 0, fmt.Errorf("call not accepted")
 	}
-	// the handler must have seen the ids we meant it to see (squash none / AUTH_NONE -> nobody)
-	if res.ctx.EffectiveUID != p.euid || res.ctx.EffectiveGID != p.egid {
-		return 0, fmt.Errorf("effective ids %d/%d, wanted %d/%d", res.ctx.EffectiveUID, res.ctx.EffectiveGID, p.euid, p.egid)
+	// the effective identity HandleCall stored in the AuthContext must be the one planned
+	// (squash table applied to the raw credential / AUTH_NONE -> nobody); Coq checks it again
+	// (a difference is not an error of the driver: the ids found are handed to Coq, which reports it)
+	p.ctxUID, p.ctxGID = res.ctx.EffectiveUID, res.ctx.EffectiveGID
+	if !p.authNone && p.ctxUID == p.euid && p.ctxGID == p.egid {
+		if res.ctx.AuthSys == nil || len(res.ctx.AuthSys.AuxGIDs) != len(p.aux) {
+			return 0, fmt.Errorf("aux gids seen by the handler: %v, wanted %v", res.ctx.AuthSys, p.aux)
+		}
+		for i, g := range res.ctx.AuthSys.AuxGIDs {
+			if g != p.aux[i] {
+				return 0, fmt.Errorf("aux gids seen by the handler: %v, wanted %v", res.ctx.AuthSys.AuxGIDs, p.aux)
+			}
+		}
 	}
 	// and the backend must report the mode we planted
 	if fi, err := r.fs.Lstat("/obj"); err != nil || fi.Mode() != os.FileMode(p.mode) {
@@ -111,14 +169,51 @@ func runC12(points []c12Point, kind string, idx int) Case {
 		if err != nil {
 			panic(fmt.Sprintf("C12 point %+v: %v", *p, err))
 		}
-		aux := "None"
+		raux := "None"
 		if !p.authNone {
-			aux = "(Some " + CIs(u32s(p.aux)) + ")"
+			raux = "(Some " + CIs(u32s(p.raux)) + ")"
 		}
-		coq = append(coq, fmt.Sprintf("IP %d %d %d %d %d %s %d %s %d",
-			p.mode, p.fuid, p.fgid, p.euid, p.egid, aux, p.access, CBool(p.ro), obs))
-		txt = append(txt, fmt.Sprintf("[%d] mode=%#o own=%d:%d eff=%d:%d aux=%v authnone=%v mask=%#x ro=%v -> granted %#x",
-			i, p.mode, p.fuid, p.fgid, p.euid, p.egid, p.aux, p.authNone, p.access, p.ro, obs))
+		// raw credential + squash mode; the effective ids are those HandleCall stored (asserted above)
+		coq = append(coq, fmt.Sprintf("IP %d %d %d %s %d %d %s %d %d %d %s %d",
+			p.mode, p.fuid, p.fgid, c12SquashCoq[p.squash], p.ruid, p.rgid, raux, p.ctxUID, p.ctxGID, p.access, CBool(p.ro), obs))
+		txt = append(txt, fmt.Sprintf("[%d] mode=%#o own=%d:%d squash=%s raw=%d:%d rawaux=%v eff=%d:%d effaux=%v authnone=%v %s mask=%#x ro=%v -> granted %#x",
+			i, p.mode, p.fuid, p.fgid, c12SquashNames[p.squash], p.ruid, p.rgid, p.raux, p.euid, p.egid, p.aux, p.authNone, p.trap, p.access, p.ro, obs))
+		tags["squash_"+c12SquashNames[p.squash]]++
+		if !p.authNone {
+			if p.ruid != p.euid {
+				tags["raw_uid_ne_effective"]++
+			}
+			if p.rgid != p.egid {
+				tags["raw_gid_ne_effective"]++
+			}
+			auxDiff := false
+			for j := range p.aux {
+				if p.aux[j] != p.raux[j] {
+					auxDiff = true
+				}
+			}
+			if auxDiff {
+				tags["raw_aux_ne_effective"]++
+			}
+			if p.ruid != p.euid || p.rgid != p.egid || auxDiff {
+				tags["raw_ne_effective"]++
+				// would the decision differ if the RAW identity were used for the class selection?
+				rawp := *p
+				rawp.euid, rawp.egid, rawp.aux = p.ruid, p.rgid, p.raux
+				if classOfPoint(&rawp) != classOfPoint(p) {
+					tags["raw_identity_would_pick_other_class"]++
+				}
+			}
+		}
+		if p.trap != "" {
+			tags["trap_"+p.trap]++
+		}
+		switch p.fgid {
+		case 0:
+			tags["object_gid_0"]++
+		case 65534:
+			tags["object_gid_65534"]++
+		}
 		tags["class_"+c12ClassNames[classOfPoint(p)]]++
 		if p.mode&uint32(os.ModeDir) != 0 {
 			tags["dir"]++
@@ -188,8 +283,8 @@ func pickIDNot(r *Rand, not ...uint32) uint32 {
 
 // concretise turns a class point (branch g, 9 mode bits, dir, ro, 6 mask bits) into a full input:
 // ids realising the branch, extra mode bits and extra mask bits that must not matter.
-func concretise(r *Rand, g int, m9 uint32, dir, ro bool, a6 uint32) c12Point {
-	p := c12Point{ro: ro}
+// decorate sets mode and mask from the class point and adds bits that must not matter.
+func decorate(r *Rand, p *c12Point, m9 uint32, dir bool, a6 uint32) {
 	p.mode = m9
 	if dir {
 		p.mode |= uint32(os.ModeDir)
@@ -204,7 +299,9 @@ func concretise(r *Rand, g int, m9 uint32, dir, ro bool, a6 uint32) c12Point {
 	if r.Chance(30) {
 		p.access |= uint32(r.U64()) &^ 63
 	}
-	p.fuid, p.fgid = pickID(r), pickID(r)
+}
+
+func pickNAux(r *Rand) int {
 	naux := r.Intn(4)
 	switch x := r.Intn(100); {
 	case x < 20:
@@ -212,6 +309,143 @@ func concretise(r *Rand, g int, m9 uint32, dir, ro bool, a6 uint32) c12Point {
 	case x < 50:
 		naux = r.Intn(17)
 	}
+	return naux
+}
+
+func pickNotIn(r *Rand, not map[uint32]bool) uint32 {
+	for {
+		if x := pickID(r); !not[x] {
+			return x
+		}
+	}
+}
+
+// squashedPoint: a point on an export with root (1) or all (2) squashing, built the way the server
+// builds it: the RAW AUTH_SYS credential is drawn first (uid 0, gid 0 and zeros among the auxiliary
+// gids are frequent), the effective identity follows from the squash table, and the object's owner
+// and group are chosen relative to the EFFECTIVE identity so that branch g of the class selection
+// is taken.  Wherever the branch leaves a choice, the object gets an owner/group that only the RAW
+// credential has (e.g. group 0 for a squashed gid 0): an implementation that looked at the raw
+// identity would pick another class there ("trap").  ok=false: branch g cannot be taken under this
+// mode (effective uid 0 does not exist under squashing; under "all" every auxiliary gid equals the
+// primary one); with exact=false such points become traps in the "other" class instead.
+func squashedPoint(r *Rand, squash, g int, m9 uint32, dir, ro bool, a6 uint32, exact bool) (c12Point, bool) {
+	p := c12Point{ro: ro, squash: squash, rawSet: true}
+	decorate(r, &p, m9, dir, a6)
+	if r.Chance(6) {
+		// no AUTH_SYS credential at all on a squashing export
+		p.authNone = true
+		p.euid, p.egid = 65534, 65534
+		switch g {
+		case 1:
+			p.fuid, p.fgid = 65534, PickU32(r, 65534, 0, pickID(r))
+		case 2:
+			p.fuid, p.fgid = pickIDNot(r, 65534), 65534
+		case 4:
+			p.fuid, p.fgid = pickIDNot(r, 65534), pickIDNot(r, 65534)
+		default:
+			if exact {
+				return p, false
+			}
+			p.fuid, p.fgid = 0, 0
+		}
+		return p, true
+	}
+	p.ruid = pickID(r)
+	if r.Chance(40) {
+		p.ruid = 0
+	}
+	p.rgid = pickID(r)
+	switch x := r.Intn(100); {
+	case x < 40:
+		p.rgid = 0
+	case x < 52:
+		p.rgid = 65534
+	}
+	p.raux = make([]uint32, pickNAux(r))
+	for i := range p.raux {
+		p.raux[i] = pickID(r)
+		if r.Chance(30) {
+			p.raux[i] = 0
+		}
+	}
+	p.euid, p.egid, p.aux = goSquash(squash, p.ruid, p.rgid, p.raux)
+	eff := map[uint32]bool{p.egid: true}
+	for _, x := range p.aux {
+		eff[x] = true
+	}
+	// gids the raw credential has and the effective identity has not
+	var rawOnly []uint32
+	if !eff[p.rgid] {
+		rawOnly = append(rawOnly, p.rgid)
+	}
+	for _, x := range p.raux {
+		if !eff[x] {
+			rawOnly = append(rawOnly, x)
+		}
+	}
+	otherUID := func() uint32 {
+		if p.ruid != p.euid && r.Chance(60) {
+			return p.ruid // the raw uid (0) owns the object; the squashed caller is not the owner
+		}
+		return pickIDNot(r, p.euid)
+	}
+	nonMember := func() uint32 {
+		if len(rawOnly) > 0 && r.Chance(70) {
+			p.trap = "object_gid_is_raw_only_gid"
+			return rawOnly[r.Intn(len(rawOnly))]
+		}
+		return pickNotIn(r, eff)
+	}
+	switch g {
+	case 1: // owner by the effective uid; group relation free
+		p.fuid = p.euid
+		switch x := r.Intn(100); {
+		case x < 35:
+			p.fgid = p.egid
+		case x < 70:
+			p.fgid = nonMember()
+		default:
+			p.fgid = pickID(r)
+		}
+	case 2: // primary group by the effective gid
+		p.fuid, p.fgid = otherUID(), p.egid
+		if p.rgid != p.egid {
+			p.trap = "object_gid_is_effective_only_gid"
+		}
+	case 3: // auxiliary group only
+		var cand []uint32
+		for _, x := range p.aux {
+			if x != p.egid {
+				cand = append(cand, x)
+			}
+		}
+		if len(cand) == 0 {
+			if exact {
+				return p, false
+			}
+			p.fuid, p.fgid = otherUID(), nonMember()
+		} else {
+			p.fuid, p.fgid = otherUID(), cand[r.Intn(len(cand))]
+		}
+	case 4:
+		p.fuid, p.fgid = otherUID(), nonMember()
+	default: // effective uid 0 does not exist here
+		if exact {
+			return p, false
+		}
+		p.fuid, p.fgid = otherUID(), nonMember()
+	}
+	return p, true
+}
+
+func PickU32(r *Rand, xs ...uint32) uint32 { return xs[r.Intn(len(xs))] }
+
+func concretise(r *Rand, g int, m9 uint32, dir, ro bool, a6 uint32) c12Point {
+	p := c12Point{ro: ro}
+	decorate(r, &p, m9, dir, a6)
+	p.fuid, p.fgid = pickID(r), pickID(r)
+	naux := pickNAux(r)
 	mkaux := func(avoid uint32) []uint32 {
 		a := make([]uint32, naux)
 		for i := range a {
@@ -291,6 +525,13 @@ func genC12(r *Rand, idx int, tier string) Case {
 		// systematic: thorough covers every one of the 655 360 class points exactly once
 		for j := 0; j < c12PointsPerCase; j++ {
 			g, m9, dir, ro, a6 := classPoint(idx*c12PointsPerCase + j)
+			if x := r.Intn(100); x < 50 {
+				// same class point on a squashing export, when the branch exists there
+				if p, ok := squashedPoint(r, 1+x%2, g, m9, dir, ro, a6, true); ok {
+					pts = append(pts, p)
+					continue
+				}
+			}
 			pts = append(pts, concretise(r, g, m9, dir, ro, a6))
 		}
 		return runC12(pts, "systematic", idx)
@@ -308,7 +549,16 @@ func genC12(r *Rand, idx int, tier string) Case {
 			continue
 		}
 		g, m9, dir, ro, a6 := classPoint(r.Intn(c12ClassPoints))
-		pts = append(pts, concretise(r, g, m9, dir, ro, a6))
+		switch x := r.Intn(100); {
+		case x < 35:
+			p, _ := squashedPoint(r, 1, g, m9, dir, ro, a6, false)
+			pts = append(pts, p)
+		case x < 55:
+			p, _ := squashedPoint(r, 2, g, m9, dir, ro, a6, false)
+			pts = append(pts, p)
+		default:
+			pts = append(pts, concretise(r, g, m9, dir, ro, a6))
+		}
 	}
 	return runC12(pts, "random", idx)
 }
@@ -336,5 +586,26 @@ func corpusC12() []Case {
 		{mode: 0xffffffff, fuid: 0, fgid: 0, euid: 1<<32 - 1, egid: 1<<32 - 1, aux: []uint32{1<<32 - 1}, access: 0xffffffff},
 		{mode: 0x7fffffff, fuid: 1<<32 - 1, fgid: 0, euid: 1<<32 - 1, egid: 7, access: 63},
 	}
-	return []Case{runC12(pts, "precedence-root-readonly-authnone", 0)}
+	// squashing exports: the class follows the EFFECTIVE identity, not the credential as sent
+	sq := func(mode, fuid, fgid uint32, squash int, ruid, rgid uint32, raux []uint32, ro bool) c12Point {
+		p := c12Point{mode: mode, fuid: fuid, fgid: fgid, access: 63, ro: ro, squash: squash, ruid: ruid, rgid: rgid, raux: raux, rawSet: true}
+		p.euid, p.egid, p.aux = goSquash(squash, ruid, rgid, raux)
+		return p
+	}
+	var sp []c12Point
+	for _, m := range []uint32{0o070, d | 0o070, 0o707, d | 0o707, 0o700, 0o007, d | 0o777} {
+		for _, fgid := range []uint32{0, 65534, 2000} {
+			sp = append(sp,
+				sq(m, 7, fgid, 1, 0, 0, nil, false),                     // squashed root: nobody/nobody
+				sq(m, 0, fgid, 1, 0, 0, []uint32{0, 2000}, false),       // object owned by uid 0: the squashed root is not its owner
+				sq(m, 7, fgid, 1, 1000, 0, nil, false),                  // non-root with primary gid 0
+				sq(m, 7, fgid, 1, 1000, 1000, []uint32{0, 5}, false),    // gid 0 among the auxiliary gids
+				sq(m, 65534, fgid, 1, 0, 5, nil, false),                 // squashed root owns what nobody owns
+				sq(m, 7, fgid, 2, 1000, 2000, []uint32{2000, 0}, false), // all: everything becomes nobody
+				sq(m, 1000, fgid, 2, 1000, 0, nil, m&1 == 0),            // all: the raw uid is not the owner any more
+				sq(m, 7, fgid, 0, 0, 0, []uint32{0}, false),             // none: real root
+			)
+		}
+	}
+	return []Case{runC12(pts, "precedence-root-readonly-authnone", 0), runC12(sp, "squashed-identities", 1)}
 }
